@@ -491,6 +491,19 @@ def run(ctx):
         n, d, seed = rng.randint(3 * k, 30), rng.randint(1, 2), rng.randint(0, 10 ** 6)
         km, X = run_model(rng, n, k, d, strategy, True, seed, 5, True)
         record_fit(ctx, rng, "big%d" % j, km, X, n, k, d, strategy, True, seed, 5, True, dtr, gtr, ftr, big=True)
+    # heavy duplicates: 0/1(/2) data with more clusters than distinct points, so that points sit exactly ON centres and
+    # several clusters share a centre (sizes only; the association traces of this regime are not recorded)
+    for j in range(900 if thorough else 300):
+        k = rng.randint(4, 6)
+        n = rng.randint(3 * k, 5 * k)
+        d = 1 if rng.random() < 0.7 else 2
+        seed = rng.randint(0, 10 ** 6)
+        from mlinsights.mlmodel import ConstraintKMeans
+        X = numpy.array([[rng.randint(0, rng.choice([1, 1, 2])) for _ in range(d)] for _ in range(n)], dtype=numpy.float64)
+        strategy = rng.choice(["gain", "gain", "distance"])
+        km = ConstraintKMeans(n_clusters=k, strategy=strategy, kmeans0=True, random_state=seed, max_iter=rng.choice([5, 12]),
+                              balanced_predictions=False, n_init=2)
+        record_fit(ctx, rng, "dup%d" % j, km, X, n, k, d, strategy, True, seed, km.max_iter, False, [], [], ftr, big=True)
     for mod, cfgf, trs in (("QuotaTrace", "QuotaTrace.cfg", dtr), ("QuotaGainTrace", "QuotaGainTrace.cfg", gtr),
                            ("QuotaFitTrace", "QuotaFitTrace.cfg", ftr)):
         if not trs:
